@@ -317,6 +317,94 @@ async def c12_removed_definition_still_called(w):
             "bound": "4 fixed histories", "cases": cases, "distinct_nontrivial": cases, "samples": [], "failures": uniq, "reproduced": bool(uniq)}
 
 
+async def c12_partial_start(w):
+    """New subsystem: a @service decorator with two names whose start fails part-way (Home Assistant rejects the service
+    description after the first name was registered).  Only what was registered may be undone: the second name, declared by
+    another live function of the same context, must stay and still reach that function."""
+    from types import SimpleNamespace as NS
+    from custom_components.pyscript.function import Function
+    from custom_components.pyscript.global_ctx import GlobalContext, GlobalContextMgr
+    import custom_components.pyscript.decorators.service as SVC
+    hass = await boot_full(legacy=False)
+    Function.service_cnt.clear()
+    Function.service2global_ctx.clear()
+    calls = []
+    g = GlobalContext("file.c12a", global_sym_table={"__name__": "file.c12a", "note": lambda v: calls.append(v)}, manager=GlobalContextMgr)
+    GlobalContextMgr.set("file.c12a", g)
+    g.set_auto_start(True)
+    await run_source("file.c12a", "@service('pyscript.s2')\ndef f1():\n    note(1)\n", global_ctx=g)
+    await settle(60)
+    real = SVC.async_set_service_schema
+    n = [0]
+
+    def failing(*a, **k):
+        n[0] += 1
+        if n[0] == int(w.get("fails_at", 1)):
+            raise TypeError("bad service description")
+        return real(*a, **k)
+    SVC.async_set_service_schema = failing
+    try:
+        await run_source("file.c12a", "@service('pyscript.s1', 'pyscript.s2')\ndef f2():\n    note(2)\n", global_ctx=g)
+        await settle(60)
+    finally:
+        SVC.async_set_service_schema = real
+    registered = sorted(f"{d}.{s_}" for (d, s_) in hass.services.table if d == "pyscript" and s_ in ("s1", "s2"))
+    cb = hass.services.table.get(("pyscript", "s2"))
+    if cb:
+        await cb(NS(data={}, context=None, domain="pyscript", service="s2"))
+        await settle(25)
+    counts = {k: v for k, v in Function.service_cnt.items() if v}
+    g.stop()
+    GlobalContextMgr.delete("file.c12a")
+    await settle(80)
+    await shutdown()
+    rep = registered != ["pyscript.s2"] or calls != [1] or counts != {"pyscript.s2": 1}
+    return {"reproduced": rep, "observed": {"registered": registered, "s2_reached": list(calls), "counts": counts},
+            "expected": {"registered": ["pyscript.s2"], "s2_reached": [1], "counts": {"pyscript.s2": 1}}}
+
+
+async def c14_late_done_callback(w):
+    """task.add_done_callback on a task that has already ended: the record run_coro dropped must not come back."""
+    from custom_components.pyscript.function import Function
+    await boot()
+
+    async def work():
+        return 1
+    t = Function.create_task(work())
+    await t
+    await settle(10)
+    before = t in Function.task2cb
+    err = None
+    try:
+        Function.task_add_done_callback(t, None, lambda *a, **k: None)
+    except Exception as e:  # noqa
+        err = e
+    after = t in Function.task2cb
+    Function.task2cb.pop(t, None)
+    await shutdown()
+    return {"reproduced": after or err is None, "observed": {"record_before": before, "record_after": after, "error": repr(err)},
+            "expected": "no record for the ended task before or after; the call is refused (KeyError)"}
+
+
+async def c13_name2id_other_context(w):
+    """A function defined in another global context (an imported module function) calls task.unique(name) and then
+    task.name2id(name): both resolve the name in the context the function is DEFINED in, so name2id finds the caller's task."""
+    from custom_components.pyscript.global_ctx import GlobalContext, GlobalContextMgr
+    from custom_components.pyscript.function import Function
+    await boot_full(legacy=False)
+    out = []
+    gm, _, e1 = await run_source("modules.c13m", "def claim():\n    task.unique('k')\n    return task.name2id('k') == task.current_task()\n")
+    ga = GlobalContext("file.c13a", global_sym_table={"__name__": "file.c13a", "claim": gm.global_sym_table["claim"], "note": lambda v: out.append(v)}, manager=GlobalContextMgr)
+    GlobalContextMgr.set("file.c13a", ga)
+    src = "def runner():\n    try:\n        note(claim())\n    except Exception as e:\n        note(type(e).__name__)\n\ntask.create(runner)\n"
+    _, _, e2 = await run_source("file.c13a", src, global_ctx=ga)
+    await settle(80)
+    names = sorted(Function.unique_name2task)
+    await shutdown()
+    return {"reproduced": out != [True], "observed": {"result": out, "errors": [repr(e1), repr(e2)], "unique_names_while_running": names},
+            "expected": {"result": [True]}}
+
+
 async def c12_outgoing(w):
     """service.call / domain.service() with control-keyword look-alikes; data delivered must equal the given kwargs
     minus control keywords of the recognised type."""
